@@ -6,6 +6,12 @@ HERE = os.path.dirname(os.path.dirname(os.path.abspath(__file__)))
 
 # property id -> (simulator, design section, technique, level text, level note)
 BUILT = {
+    "C20": (
+        "G", "5/C20",
+        "deterministic simulation: the real run_backtests / backtest() stack (HistoricalClock via hook H1, mock exchange, execution manager, system in stream mode, shutdown_after_backtest) for 2-6 concurrent backtests on one paused, seeded tokio runtime with seeded pacing and spurious yields of the engine feed (hook H2); completeness check + differential concurrent-vs-alone comparison",
+        "Seeded search over datasets x numbers of concurrent backtests x strategy parameterisations x task interleavings (per-backtest pacing with ties around the exchange latency, tokio select!/merge seed, H2 yield rate). Each engine must see every dataset event exactly once in order before shutdown (G1), the returned summary must equal an independent realised-PnL accounting of that backtest's own fills (G2), and fills, final positions, balances and realised PnL must equal those of the same backtest re-run alone in a fresh runtime (G3).",
+        "Trusted: the recording strategy / data stubs, the independent PnL accounting, tokio's paused single-thread runtime. NOT explored: runtime thread counts (tokio's multi-thread scheduler cannot be controlled or replayed) and wall-clock skew/jumps. One recorded finding (engine-held balance depends on same-instant interleaving through HistoricalClock stepping backwards) is matched only when everything except engine-held balances agrees.",
+    ),
     "C06": (
         "D2", "5/C06",
         "deterministic simulation: simulated Binance (seeded book process, REST snapshot JSON, depth-event JSON frames for spot and USD-futures) behind an in-memory websocket with delivery faults (drop/dup/swap/replay/early-late start/EOF/junk frames), through the real parser, transformers+sequencers, reconnect pipeline and OrderBookL2Manager; local book compared with the exchange book as of its reported sequence after every applied event",
